@@ -751,7 +751,7 @@ func valueCases(g *core.Graph, at *core.V, e ast.Expr, depth int) []vcase {
 	// expression in each literal
 	if sel, isSel := ast.Unparen(e).(*ast.SelectorExpr); isSel && depth > 0 {
 		if base, isID := ast.Unparen(sel.X).(*ast.Ident); isID {
-			if bv, isVar := info.ObjectOf(base).(*types.Var); isVar && !bv.IsField() && bv.Parent() != nil && bv.Pkg() != nil && bv.Parent() != bv.Pkg().Scope() {
+			if bv, isVar := info.ObjectOf(base).(*types.Var); isVar && !bv.IsField() && bv.Pkg() != nil && bv.Parent() != bv.Pkg().Scope() {
 				if st, isStruct := bv.Type().Underlying().(*types.Struct); isStruct {
 					var out []vcase
 					okAll := true
@@ -798,7 +798,7 @@ func valueCases(g *core.Graph, at *core.V, e ast.Expr, depth int) []vcase {
 		return []vcase{{e, at}}
 	}
 	obj, isVar := info.ObjectOf(id).(*types.Var)
-	if !isVar || obj.IsField() || obj.Parent() == nil || obj.Parent() == obj.Pkg().Scope() {
+	if !isVar || obj.IsField() || obj.Pkg() == nil || obj.Parent() == obj.Pkg().Scope() {
 		return []vcase{{e, at}}
 	}
 	defs := defVertices(g, obj)
